@@ -168,8 +168,24 @@ def r3_trivia(c, facts):
         c.bad(R, 'lexeme-is_trivia-not-delegating', 'the Lexeme impl of Token no longer delegates is_trivia to TokenKind::is_trivia')
 
 
+def r7_var_uniform(c, facts, rule='C05.R7'):
+    """all kind predicates treat an unresolved tag alike, so that where a function is defined or applied cannot change the verdict"""
+    import kinds as K
+    R = c.rule(rule, 'VAR-UNIFORM: every TagWrap::is_* predicate treats an unresolved tag (Tag::Var) the same way')
+    T = K.Tables(c, facts)
+    adm = sorted(p for p in T.pred if 'Var' in T.adm(p))
+    rej = sorted(p for p in T.pred if 'Var' not in T.adm(p))
+    c.floor(R, 'kind predicates', len(T.pred), 11)
+    if adm and rej:
+        minority = rej if len(rej) <= len(adm) else adm
+        c.bad(R, 'var-treatment-differs:%s' % ','.join(minority), 'the predicates %s %s an unresolved tag while %s do the opposite: a generic function is accepted or rejected depending on whether it is applied in its own module' % (minority, 'reject' if minority is rej else 'admit', adm if minority is rej else rej))
+    else:
+        c.ok(R, {'predicates': len(T.pred), 'all': 'admit Var' if adm else 'reject Var'})
+
+
 def run(c, facts):
     import c10
+    c.run(r7_var_uniform, facts)
     R6 = c.rule('C05.R6', 'JOIN-AGREE: a declaration moved into a module is found again: an import binds to the module that was loaded for it (shared with C10.R5)')
     c.shared(R6, c10.r5_join_agree, 'C10.R5', facts)
     c.run(r1_transparent, facts)
